@@ -6,6 +6,7 @@
 (* itself (Assert) so that the oracle is not trusted blindly.              *)
 (*   Family "pairs"   : all ordered pairs of the number lattice            *)
 (*   Family "strops"  : all ordered pairs of a lattice with strings        *)
+(*   Family "random"  : random int64 / double operands (simulation mode)   *)
 (*   Family "numerals": all strings over a numeral alphabet up to MaxLen   *)
 (*                      plus boundary spellings, through tonumber          *)
 (* The case is the state (two levels, so that workers share the work).     *)
@@ -194,12 +195,23 @@ Lat == IF Family = "strops" THEN StrLat ELSE NumLat
 N == IF Family = "strops" THEN Len(StrNums) + Len(StrOpStrings) ELSE Len(LatI) + Len(LatF)
 
 EncLat(v) == IF v.k = "o" THEN [k |-> "o", t |-> v.t] ELSE EncV(v)
+RECURSIVE AllDec(_, _)
+AllDec(s, i) == IF i > Len(s) THEN TRUE ELSE IsDec(s[i]) /\ AllDec(s, i + 1)
+NumeralClass(s, v) == \* label of the input family (only used to label discrepancies)
+  LET i0 == SkipSp(s, 1) IN
+  IF v.k = "nil" /\ i0 + 1 <= Len(s) /\ s[i0] = "+" /\ s[i0 + 1] \in {"+", "-"} /\ Str2Num(SubSeq(s, i0 + 1, Len(s))).k # "nil"
+  THEN "plus-then-signed-numeral"
+  ELSE IF v.k = "nil" /\ (\E i \in 1..Len(s) : s[i] = "_") THEN "contains-underscore"
+  ELSE IF Len(s) >= 1 /\ AllDec(s, 1) /\ v.k \in {"f", "fk"} THEN "decimal-integer-overflow"
+  ELSE v.k
 (* a coarse class of each lattice value (only used to label discrepancies) *)
 VClass(v) ==
   IF v.k = "i" THEN (IF IToFExact(v.v) THEN "int" ELSE "int-not-a-float")
   ELSE IF v.k = "f" THEN
     (IF v.f.c # "fin" THEN v.f.c ELSE IF FToI(v.f).ok THEN "float-int" ELSE IF v.f.e >= 0 THEN "float-beyond-int64" ELSE "float-frac")
-  ELSE IF v.k = "s" THEN (IF Str2Num(v.s).k = "nil" THEN "str-nonnumeric" ELSE "str-numeric")
+  ELSE IF v.k = "s" THEN (IF Str2Num(v.s).k # "nil" THEN "str-numeric"
+                          ELSE IF NumeralClass(v.s, VNil) = "plus-then-signed-numeral" THEN "str-plus-then-signed-numeral"
+                          ELSE "str-nonnumeric")
   ELSE v.k
 
 (* ---------------- results per case ---------------- *)
@@ -295,14 +307,6 @@ RECURSIVE PowNA(_)
 PowNA(n) == IF n = 0 THEN 1 ELSE NA * PowNA(n - 1)
 
 NoSpace(s) == \A i \in 1..Len(s) : ~IsSp(s[i])
-RECURSIVE AllDec(_, _)
-AllDec(s, i) == IF i > Len(s) THEN TRUE ELSE IsDec(s[i]) /\ AllDec(s, i + 1)
-NumeralClass(s, v) == \* label of the input family (only used to label discrepancies)
-  LET i0 == SkipSp(s, 1) IN
-  IF v.k = "nil" /\ i0 + 1 <= Len(s) /\ s[i0] = "+" /\ s[i0 + 1] \in {"+", "-"} /\ Str2Num(SubSeq(s, i0 + 1, Len(s))).k # "nil"
-  THEN "plus-then-signed-numeral"
-  ELSE IF Len(s) >= 1 /\ AllDec(s, 1) /\ v.k \in {"f", "fk"} THEN "decimal-integer-overflow"
-  ELSE v.k
 NumeralCase(s) ==
   LET v == Str2Num(s) IN
   [s |-> s, r |-> EncV(v), cls |-> NumeralClass(s, v),
@@ -317,6 +321,21 @@ NumeralLaw(s) ==
   IN Assert(d < 0 \/ Str2Num(s) = VI(I(d)), <<"decimal digits", s>>)
 
 PrefLen == IF MaxLen < 2 THEN MaxLen ELSE 2
+
+(* ---------------- random operands (Family "random", run with -simulate: one pair per behaviour) ---------------- *)
+RandByte(i) == RandomElement(0..255)          \* parametrised so that every use draws again
+RandInt64(i) == <<RandByte(1), RandByte(2), RandByte(3), RandByte(4), RandByte(5), RandByte(6), RandByte(7), RandByte(8)>>
+RandExp(i) == RandomElement({-1074, -1000, -200, -64, -63, -62, -54, -53, -52, -51, -50, -45, -30, -20, -11, -10, -9, -2, -1,
+                             0, 1, 2, 9, 10, 11, 12, 20, 100, 900, 970, 971})
+RandVal(kind) ==
+  CASE kind = "u" -> VI(RandInt64(1))
+    [] kind = "s" -> VI(I(RandomElement(-1000..1000)))
+    [] kind = "n" -> VI(Add(LatIT[RandomElement(1..Len(LatIT))], I(RandomElement(-3..3))))
+    [] kind = "f" -> VF(Fin(RandomElement({TRUE, FALSE}),
+                            <<RandByte(1), RandByte(2), RandByte(3), RandByte(4), RandByte(5), RandByte(6), 16 + RandomElement(0..15), 0>>,
+                            RandExp(1)))
+    [] kind = "g" -> VF(IToFRne(Add(LatIT[RandomElement(1..Len(LatIT))], I(RandomElement(-3..3)))))
+RandKinds == {"u", "s", "n", "f", "g"}
 
 (* ---------------- the case machine ---------------- *)
 Init == c = <<"start">>
@@ -334,6 +353,13 @@ Next ==
                   /\ (IF Family = "pairs" THEN UnLaws(a) /\ (c[2] \notin TransSub \/ TransLaws(a, TransSub)) ELSE TRUE)
              ELSE /\ Emit([t |-> "bin", a |-> c[2], b |-> j, r |-> PairRes(a, Lat[j])])
                   /\ (IF Family = "pairs" THEN PairLaws(a, Lat[j]) ELSE TRUE)
+  \/ /\ c = <<"start">> /\ Family = "random"
+     /\ \E ka \in RandKinds, kb \in RandKinds : c' = <<"rv", RandVal(ka), RandVal(kb)>>
+  \/ /\ c[1] = "rv"
+     /\ c' = <<"done">>
+     /\ Emit([t |-> "rbin", av |-> EncV(c[2]), bv |-> EncV(c[3]), ca |-> VClass(c[2]), cb |-> VClass(c[3]),
+              r |-> PairRes(c[2], c[3]), ua |-> UnRes(c[2])])
+     /\ PairLaws(c[2], c[3]) /\ UnLaws(c[2])
   \/ /\ c = <<"start">> /\ Family = "numerals"
      /\ \/ \E len \in 0..PrefLen : \E k \in 0..(PowNA(len) - 1) : c' = <<"n", StrOf(k, len, <<>>)>>
         \/ \E i \in 1..Len(BoundaryNumerals) : c' = <<"b", i>>
